@@ -98,6 +98,35 @@ def simplex (n : Nat) (rows : List GeRow) (c : List Rat) : Sol :=
     let x := (List.range n).map (fun i => sign[i]! * tb3.d[m + i]!)
     .optimal x y
 
+/-- untrusted finder of a Farkas certificate: the dual with c = 0 (max rhs·y, Σ_j y_j coef_j = 0, y ≥ 0) is unbounded iff
+    the flat LP is infeasible; the unbounded ray is the certificate (checked by `farkasOk`, sound by `farkas_sound`) -/
+def farkas (n : Nat) (rows : List GeRow) : Option (List Rat) :=
+  let m := rows.length
+  let width := m + n + 1
+  let rowsA := rows.toArray
+  let t : Array (Array Rat) := Array.ofFn (n := n) (fun i =>
+    Array.ofFn (n := width) (fun j =>
+      if j.val < m then (rowsA[j.val]!).coef.getD i.val 0
+      else if j.val < m + n then (if j.val == m + i.val then 1 else 0)
+      else 0))
+  let tb0 : Tab := { t := t, d := #[], basis := Array.ofFn (n := n) (fun i => m + i.val) }
+  let tb1 := (List.range n).foldl (fun (tb : Tab) i =>
+    if tb.basis[i]! < m then tb else
+    match (List.range m).find? (fun j => tb.t[i]![j]! != 0) with
+    | some j => pivot { tb with d := Array.replicate width 0 } i j
+    | none => tb) tb0
+  let tb2 := { tb1 with d := costRow tb1 (fun j => if j < m then -(rowsA[j]!).rhs else 0) width }
+  let (tb3, s3) := iterate m (m + n) 5000 tb2
+  if s3 != .unbounded then none else
+  match entering tb3 m with
+  | none => none
+  | some j =>
+    some ((List.range m).map (fun c =>
+      if c == j then 1 else
+      match (List.range n).find? (fun i => tb3.basis[i]! == c) with
+      | some i => - tb3.t[i]![j]!
+      | none => 0))
+
 /-! ## parsing -/
 
 def pBasis : P Basis := do let tag ← P.nats; let vals ← P.qs; pure ⟨tag, vals⟩
@@ -240,7 +269,13 @@ def mdp : P String := do
   match simplex n rows c with
   | .fuel => return "skip simplex_fuel"
   | .infeasible =>
-    if st != "some" then return "skip flat_lp_infeasible_uncertified" else
+    if st != "some" then
+      -- the library reports "no solution": accept only with an exactly checked Farkas certificate of flat infeasibility
+      match farkas n rows with
+      | some yF => if farkasOk n rows yF then return ({ v with tag := v.tag ++ " flat_infeasible_certified" }).render
+                   else return "skip flat_lp_infeasible_uncertified"
+      | none => return "skip flat_lp_infeasible_uncertified"
+    else
     -- the library returned weights: they must violate some flat constraint
     let scale := 1 + maxAbs w
     match rows.find? (fun r => !r.satB n (tol7 * scale) w) with
